@@ -10,6 +10,7 @@ import (
 	"time"
 
 	flyt "github.com/mark3labs/flyt"
+	"github.com/mark3labs/flyt/zzvrt/core"
 )
 
 func init() {
@@ -351,6 +352,48 @@ func genC07(tier string) []Scenario {
 
 // ---------------------------------------------------------------- C08
 
+// nestedBatchLimitScenario: a batch with limit cIn run from INSIDE an item of another concurrent
+// batch (limit cOut), with the context that item's exec received: the inner batch's own limit is
+// usable in full — its cIn items all wait for each other — and never exceeded.
+func nestedBatchLimitScenario(cOut, cIn int) Scenario {
+	body := func() {
+		var in, maxIn, arrived core.Cell[int]
+		items := func(n int) []flyt.Result {
+			r := make([]flyt.Result, n)
+			for i := range r {
+				r[i] = flyt.NewResult(i)
+			}
+			return r
+		}
+		inner := flyt.NewBatchNode().WithBatchConcurrency(cIn).
+			WithPrepFunc(func(context.Context, *flyt.SharedStore) ([]flyt.Result, error) { return items(cIn), nil }).
+			WithExecFunc(func(_ context.Context, it flyt.Result) (flyt.Result, error) {
+				in.Set(in.Get() + 1)
+				if in.Get() > maxIn.Get() {
+					maxIn.Set(in.Get())
+				}
+				arrived.Set(arrived.Get() + 1)
+				core.Block("inner-barrier", func() bool { return arrived.Peek() >= cIn })
+				arrived.Get()
+				in.Set(in.Get() - 1)
+				return it, nil
+			})
+		outer := flyt.NewBatchNode().WithBatchConcurrency(cOut).
+			WithPrepFunc(func(context.Context, *flyt.SharedStore) ([]flyt.Result, error) { return items(1), nil }).
+			WithExecFunc(func(ctx context.Context, it flyt.Result) (flyt.Result, error) {
+				_, err := flyt.Run(ctx, inner, flyt.NewSharedStore())
+				return it, err
+			})
+		if _, err := flyt.Run(context.Background(), outer, flyt.NewSharedStore()); err != nil {
+			core.Problem("nested batches: the outer run failed: %v", err)
+		}
+		if m := maxIn.Get(); m > cIn {
+			core.Problem("inner batch: %d executions in flight with concurrency %d", m, cIn)
+		}
+	}
+	return Scenario{Name: fmt.Sprintf("limit of a batch run from inside an item of another batch: outer c=%d inner c=%d (mutually dependent items)", cOut, cIn), Bound: 0, Body: body, Check: stdCheck(func() string { return "done" })}
+}
+
 func subsets(n, maxSize int) [][]int {
 	var res [][]int
 	for m := 1; m < 1<<n; m++ {
@@ -470,6 +513,9 @@ func genC08(tier string) []Scenario {
 		sc := batchScn{name: fmt.Sprintf("limit-rampup n=%d c=%d", c+2, c), n: c + 2, c: c, budget: 1, shape: shResults, yield: true, execMenu: okMenu, postMenu: postX, bound: b, chkLimit: true,
 			execDur: time.Second, fast: []int{0}, stagger: true}
 		out = append(out, sc.scenario())
+	}
+	for _, pr := range [][2]int{{2, 3}, {1, 2}, {3, 2}} {
+		out = append(out, nestedBatchLimitScenario(pr[0], pr[1]))
 	}
 	// a first run with FEWER items than the limit, then runs with more: the limit of the later runs
 	// is usable in full (mutually dependent items), whatever the node kept from the small run
